@@ -2,6 +2,7 @@
 import ast
 import re
 
+from .. import miniev as ME
 from .. import rules_filters as RF
 from .. import vocab as VC
 from ..astutil import Guards, enum_paths, src, is_name, is_attr, local_defs
@@ -58,13 +59,35 @@ def check_split_table(ctx, V):
             if v is not None:
                 env[s.targets[0].id] = v
     m = None
+    pred = None
+    c = RF.filter_class(ctx, 'ReindentFilter')
     for n in own_nodes(f.node):
         if isinstance(n, ast.Call) and isinstance(n.func, ast.Attribute) and n.func.attr == 'token_next_by':
             for k in n.keywords:
                 if k.arg == 'm':
-                    m = folder.try_eval(k.value, f.mod, env)
-    ctx.need(isinstance(m, tuple) and len(m) == 3 and m[2] is True and m[0] == KW, f'ReindentFilter._next_token: split table is no longer (T.Keyword, words, True): {m}')
-    pats = [re.compile(p, re.IGNORECASE) for p in m[1]]
+                    m = folder.try_eval(k.value, f.mod, env, c)
+        if isinstance(n, ast.Call) and isinstance(n.func, ast.Attribute) and n.func.attr == '_token_matching' and n.args:
+            a0 = n.args[0]
+            if isinstance(a0, ast.Attribute) and is_name(a0.value, 'self', 'cls'):
+                pred = repo.lookup_method(c, a0.attr)
+            elif isinstance(a0, ast.Name) and a0.id in f.nested:
+                pred = f.nested[a0.id]
+            elif isinstance(a0, ast.Lambda):
+                pred = next((l for l in f.lambdas if l.node is a0), None)
+    table_ok = isinstance(m, tuple) and len(m) == 3 and m[0] == KW
+    ctx.need(table_ok or pred is not None, f'ReindentFilter._next_token: no split lookup found (token_next_by(m=(T.Keyword, words, regex)) or _token_matching(predicate)): {m}')
+    ev = ME.Evaluator(ctx, f.mod, c)
+
+    def accepts(tok):
+        """does the split lookup of _next_token select this token?"""
+        if table_ok:
+            return tok.match(m[0], m[1], bool(m[2]))
+        params = [p_ for p_ in pred.params if p_ not in ('self', 'cls')]
+        envp = {params[0]: tok}
+        if 'self' in pred.params:
+            envp['self'] = ME.Obj(_cls=c)
+        body = pred.node.body if isinstance(pred.node.body, list) else [ast.Return(value=pred.node.body)]
+        return bool(ev.truth(ME.run_function(ev, ast.FunctionDef(name='p', body=body, args=None), envp)))
     loc = f'{f.mod.relpath}:{f.node.lineno}'
     words = list(CLAUSE)
     # JOIN variants: every word of the dedicated join rule
@@ -74,19 +97,34 @@ def check_split_table(ctx, V):
             words += sorted(w for w in ws if w)
     for w in words:
         types, broken = V.emit_types(w, contexts=[' ', '\n'])
-        hit = any(p.search(w) for p in pats)
-        ok = hit and types == {KW} and not broken
-        ctx.ob('R10.1', f'clause:{w}', loc, f'clause keyword {w!r} is a Keyword token matched by the reindent split table', ok,
-               f'matched by the table: {hit}; lexer types {types}: {w!r} does not start its own line')
+        # the spellings the lexer emits as one token: letter case and the whitespace between the words
+        spellings = [w, w.lower()] + ([w.replace(' ', '  '), w.lower().replace(' ', '\t'), w.replace(' ', '\n   ')] if ' ' in w else [])
+        missed = []
+        for sp in spellings:
+            try:
+                if not accepts(ME.AbsToken(repo, ttype=KW, value=sp)):
+                    missed.append(sp)
+            except (ME.Unsupported, ME.Unknown, ME.Crash) as e:
+                ctx.ob('R10.1', f'clause:{w}', loc, 'split lookup evaluable', None, str(e))
+                missed = None
+                break
+        if missed is None:
+            continue
+        ok = not missed and types == {KW} and not broken
+        ctx.ob('R10.1', f'clause:{w}', loc, f'clause keyword {w!r} is a Keyword token selected by the reindent split lookup in every spelling {spellings[:3]}...', ok,
+               f'spellings not selected: {missed}; lexer types {types}: the keyword does not start its own line')
     # WHERE handler
-    c = RF.filter_class(ctx, 'ReindentFilter')
     wh = c.methods.get('_process_where')
     ok = wh is not None and any(isinstance(n, ast.Call) and isinstance(n.func, ast.Attribute) and n.func.attr == 'insert_before'
                                 and 'self.nl()' in src(n) for n in own_nodes(wh.node))
     ctx.ob('R10.1', 'clause:WHERE', f'{c.mod.relpath}:{wh.node.lineno if wh else c.node.lineno}', '_process_where puts a line break before WHERE', ok, '')
     # BETWEEN ... AND is skipped
     t = src(f.node)
-    ok = "token.normalized == 'BETWEEN'" in t and "token.normalized == 'AND'" in t and 'BETWEEN' in m[1]
+    try:
+        has_between = accepts(ME.AbsToken(repo, ttype=KW, value='BETWEEN'))
+    except (ME.Unsupported, ME.Unknown, ME.Crash):
+        has_between = False
+    ok = "token.normalized == 'BETWEEN'" in t and "token.normalized == 'AND'" in t and has_between
     ctx.ob('R10.1', 'between-and', loc, 'the AND of BETWEEN ... AND is skipped', ok, '')
     # _split_kwds inserts nl before each
     sk = c.methods.get('_split_kwds')
